@@ -588,6 +588,16 @@ Section C10Abort.
     (forall v, v < nviews g -> denote D P rd g (snd r) v = rd v (own_data D P g s0 v)) /\
     (forall l, ~ owned g l -> raw (snd r) l = raw s0 l).
   Proof. exact (aborted_save_keeps_content D P empty rd wr g sh). Qed.
+
+  (** ... and the caller can carry on: after a save that may have raised half-way, ANY further looks (raising ones included)
+      and a save that completes are lossless with respect to the ORIGINAL file: the cache is empty, every view parses to the
+      same content (or is rejected as before), lumps without a view are byte-identical. *)
+  Theorem c10_retry_after_aborted_save_lossless : order_consistent g = true -> shape_ok sh = true ->
+    forall (s0 : state D P) accs accs2, fresh D P s0 -> wr_len_ok D P rd wr g s0 -> codec_ok D P rd wr g s0 ->
+    let r := save_a D P empty rd wr g sh true (run D P empty rd g sh accs s0) in
+    let r2 := save_a D P empty rd wr g sh true (run D P empty rd g sh accs2 (snd r)) in
+    fst r2 = true -> fresh D P (snd r2) /\ same_content D P rd g (snd r2) s0.
+  Proof. exact (retry_after_aborted_save_lossless D P empty rd wr g sh). Qed.
 End C10Abort.
 
 (** Without the clause (the pinned tree before fix c8f05ec): the writer of view 0 looks at view 1, which cannot be parsed;
